@@ -87,21 +87,14 @@ func (c *Ctx) IRoles(ob *core.Obligation) *IRoles {
 		if len(clauseEntries(fn, stm)) < 2 {
 			continue
 		}
-		resets := false
-		for _, b := range fn.Blocks {
-			for _, in := range b.Instrs {
-				if st, ok := in.(*ssa.Store); ok && core.FieldOf(st.Addr) == sendersF && core.IsNilConst(st.Val) {
-					resets = true
-				}
-			}
-		}
 		callsPrefetch := false
 		for _, ci := range core.Calls(fn) {
 			if r.Prefetch != nil && ci.Common().StaticCallee() == r.Prefetch {
 				callsPrefetch = true
 			}
 		}
-		if resets {
+		// the statement switch that is not the balance-collecting one runs the statements
+		if !callsPrefetch {
 			set(&r.Dispatcher, fn, "statement dispatcher")
 		}
 		if callsPrefetch {
@@ -115,7 +108,7 @@ func (c *Ctx) IRoles(ob *core.Obligation) *IRoles {
 			if sc != nil && sc == r.Batch {
 				callsBatch = true
 			}
-			if sc != nil && sc == r.Fetch {
+			if sc != nil && (sc == r.Fetch || reachesWithin(sc, r.Fetch, 2)) {
 				callsFetch = true
 			}
 		}
@@ -151,4 +144,24 @@ func (c *Ctx) IRoles(ob *core.Obligation) *IRoles {
 	}
 	c.iroles = r
 	return r
+}
+
+// ReachesWithin is reachesWithin for the property files.
+func ReachesWithin(fn, target *ssa.Function, depth int) bool { return reachesWithin(fn, target, depth) }
+
+// reachesWithin: target is called from fn through at most depth static calls.
+func reachesWithin(fn, target *ssa.Function, depth int) bool {
+	if fn == nil || target == nil || depth <= 0 || len(fn.Blocks) == 0 {
+		return false
+	}
+	for _, ci := range core.Calls(fn) {
+		sc := ci.Common().StaticCallee()
+		if sc == nil || sc == fn {
+			continue
+		}
+		if sc == target || reachesWithin(sc, target, depth-1) {
+			return true
+		}
+	}
+	return false
 }
